@@ -44,6 +44,11 @@ CHECKS['C02'] = ('deviation-bounded product space (<=3 quick / <=4 thorough of 1
                  'string, adduct argument over 9 ions x counts {-2,-1,1,2,3}, ion type, isotope, loss, precision, average '
                  'mode) against an independent mass calculator over a frozen NIST table; all 1-/2-letter residue strings; '
                  'every Unimod entry', 'DESIGN.md section 4 / C02')
+CHECKS['C03'] = ('differential exploration of the two library calculators: deviation-bounded product space (<=3 / <=4 of 17 '
+                 'axes: modification slots incl. isotope labels, static rules, labile and unknown mods; ion type over all 16 '
+                 'fragment types + n, charge -3..4, isotope, adducts, average mode, use_isotope_on_mods); mass == '
+                 'chem_mass(comp_mass)+delta and == chem_mass(comp(estimate_delta)); anchored to the independent reference '
+                 'at low levels; every Unimod and every self-consistent PSI-MOD entry', 'DESIGN.md section 4 / C03')
 NOT_APPLICABLE = {}
 
 
